@@ -29,7 +29,7 @@ type selCase struct {
 	Services []svc  `json:"services"`
 	Decoys   int    `json:"decoys"` // further port entries (other port / other protocol / other address)
 	Payload  string `json:"payload_hex"`
-	Cuts     []int  `json:"cuts"` // chunk boundaries (tcp)
+	Cuts     []int  `json:"cuts"`            // chunk boundaries (tcp)
 	Wrong    string `json:"wrong,omitempty"` // "", "port", "proto", "addr": probe something that matches no entry
 	Socket   bool   `json:"socket"`
 }
@@ -453,4 +453,215 @@ func TestSelectMem(t *testing.T) {
 func TestSelectSocket(t *testing.T) {
 	r := vlib.Open(prop)
 	run(t, "TestSelectSocket", true, r.Pick(25, 150))
+}
+
+// ---------------------------------------------------------------- several connections at once
+
+// Overlapping connections on one detector-bearing port: each chosen service must read
+// exactly its own client's stream, also when services start reading late and the first
+// bytes of another connection are being inspected in the meantime.
+type concCase struct {
+	Services []svc    `json:"services"`
+	Payloads []string `json:"payloads_hex"` // one per connection
+	DelayMs  int      `json:"read_delay_ms"`
+	Socket   bool     `json:"socket"`
+	UDP      bool     `json:"udp"`
+}
+
+func checkConcurrent(c concCase) error {
+	id := lab.NextID()
+	var b strings.Builder
+	base := targetPort
+	proto := "tcp"
+	if c.UDP {
+		proto = "udp"
+	}
+	if c.Socket {
+		var err error
+		base, err = freePort(proto)
+		if err != nil {
+			return fmt.Errorf("infra: %v", err)
+		}
+		fmt.Fprintf(&b, "[listener]\ntype=\"socket\"\n\n")
+	} else {
+		fmt.Fprintf(&b, "[listener]\ntype=\"verif-mem\"\nid=%q\n\n", id)
+	}
+	var names []string
+	for i, s := range c.Services {
+		n := fmt.Sprintf("t%d", i)
+		names = append(names, fmt.Sprintf("%q", n))
+		fmt.Fprintf(&b, "[service.%s]\ntype=\"verif-%s\"\nid=%q\nprefix=%q\nread_delay_ms=%d\n\n", n, s.Kind, id+"-"+n, s.Prefix, c.DelayMs)
+	}
+	fmt.Fprintf(&b, "[[port]]\nport=\"%s/127.0.0.1:%d\"\nservices=[%s]\n\n", proto, base, strings.Join(names, ", "))
+	var srv *lab.Server
+	var err error
+	if c.Socket {
+		srv, err = lab.StartSocket(id, b.String())
+	} else {
+		srv, err = lab.Start(id, b.String(), false)
+	}
+	if err != nil {
+		return fmt.Errorf("infra: %v", err)
+	}
+	defer srv.Stop()
+	ids := []string{id}
+	for i := range c.Services {
+		ids = append(ids, fmt.Sprintf("%s-t%d", id, i))
+	}
+	defer lab.Forget(ids...)
+	var conns []*lab.Conn
+	var socks []net.Conn
+	for i, hx := range c.Payloads {
+		p := vlib.UnHex(hx)
+		switch {
+		case c.Socket && c.UDP:
+			uc, err := net.Dial("udp", fmt.Sprintf("127.0.0.1:%d", base))
+			if err != nil {
+				return fmt.Errorf("infra: %v", err)
+			}
+			uc.Write(p)
+			socks = append(socks, uc)
+		case c.Socket:
+			tc, err := net.DialTimeout("tcp", fmt.Sprintf("127.0.0.1:%d", base), 3*time.Second)
+			if err != nil {
+				return fmt.Errorf("infra: dial: %v", err)
+			}
+			tc.Write(p)
+			tc.(*net.TCPConn).CloseWrite()
+			socks = append(socks, tc)
+		case c.UDP:
+			srv.L.SendUDP(&net.UDPAddr{IP: net.IPv4(127, 0, 0, 1), Port: base}, &net.UDPAddr{IP: net.IPv4(203, 0, 113, byte(10+i)), Port: 41000 + i}, p)
+		default:
+			cn := srv.L.DialTCP(&net.TCPAddr{IP: net.IPv4(127, 0, 0, 1), Port: base}, &net.TCPAddr{IP: net.IPv4(203, 0, 113, byte(10+i)), Port: 41000 + i})
+			cn.Send(p)
+			cn.CloseWrite()
+			conns = append(conns, cn)
+		}
+	}
+	defer func() {
+		for _, s := range socks {
+			s.Close()
+		}
+	}()
+	for _, cn := range conns {
+		if !cn.WaitClosed(15 * time.Second) {
+			return fmt.Errorf("a connection was not closed within 15s")
+		}
+	}
+	// every payload must have been read by exactly one service, complete and unmixed;
+	// which service is decided by the selection rule on that payload (whole payload in the first chunk)
+	deadline := time.Now().Add(8 * time.Second)
+	for {
+		got := map[string]int{} // data -> service index
+		dup := ""
+		all := 0
+		for i := range c.Services {
+			st := lab.GetStub(fmt.Sprintf("%s-t%d", id, i))
+			if st == nil {
+				return fmt.Errorf("infra: stub missing")
+			}
+			for _, inv := range st.Invocations() {
+				if !inv.Done {
+					continue
+				}
+				all++
+				if _, ok := got[string(inv.Data)]; ok {
+					dup = string(inv.Data)
+				}
+				got[string(inv.Data)] = i
+			}
+		}
+		missing := ""
+		want := 0
+		for _, hx := range c.Payloads {
+			p := vlib.UnHex(hx)
+			exp := decide(c.Services, p[:min(len(p), 1024)])
+			if exp < 0 {
+				continue
+			}
+			want++
+			si, ok := got[string(p)]
+			if !ok {
+				missing = string(p)
+				continue
+			}
+			if si != exp {
+				return fmt.Errorf("payload %q was handed to service %d, the selection rule says %d", trunc(p), si, exp)
+			}
+		}
+		if missing == "" && all == want && dup == "" {
+			return nil
+		}
+		if time.Now().After(deadline) {
+			if c.Socket && c.UDP && missing != "" && all < want {
+				return fmt.Errorf("inconclusive: a datagram was not delivered by the kernel")
+			}
+			var seen []string
+			for d := range got {
+				seen = append(seen, fmt.Sprintf("%q", trunc([]byte(d))))
+			}
+			return fmt.Errorf("with %d overlapping connections the services read %d streams %v; stream %q was never read intact (duplicate=%q): streams were mixed up, truncated or lost", len(c.Payloads), all, seen, trunc([]byte(missing)), trunc([]byte(dup)))
+		}
+		time.Sleep(3 * time.Millisecond)
+	}
+}
+
+func TestSelectConcurrent(t *testing.T) {
+	r := vlib.Open(prop)
+	var cc concCase
+	if vlib.ReplayCase("TestSelectConcurrent", &cc) {
+		if err := checkConcurrent(cc); err != nil && !strings.HasPrefix(err.Error(), "inconclusive:") {
+			r.Violation(t, "TestSelectConcurrent", cc, err.Error())
+		}
+		return
+	}
+	r.Rule("2..12 overlapping connections (tcp) or back-to-back datagrams (udp) to one port with 1..3 stub services (detectors first), distinct payloads, services that start reading 0..30 ms late; in-memory listener and, sampled, the real socket listener; oracle = every payload read intact by exactly the service the selection rule names; non-trivial = a detector is consulted")
+	r.Rapid(t, "TestSelectConcurrent", r.Pick(300, 4000), func(rt *rapid.T) {
+		c := concCase{UDP: rapid.IntRange(0, 3).Draw(rt, "udp") == 0}
+		c.Socket = rapid.IntRange(0, 9).Draw(rt, "socket") == 0
+		ns := rapid.IntRange(1, 3).Draw(rt, "nsvc")
+		for i := 0; i < ns; i++ {
+			if i == ns-1 && rapid.Bool().Draw(rt, "lastplain") {
+				c.Services = append(c.Services, svc{Kind: "plain"})
+			} else {
+				c.Services = append(c.Services, svc{Kind: "detect", Prefix: rapid.SampledFrom([]string{"A", "B", "", "AB"}).Draw(rt, "prefix")})
+			}
+		}
+		c.DelayMs = rapid.SampledFrom([]int{0, 0, 5, 30}).Draw(rt, "delay")
+		k := rapid.IntRange(2, 12).Draw(rt, "conns")
+		for i := 0; i < k; i++ {
+			head := rapid.SampledFrom([]string{"A", "B", "AB", "C"}).Draw(rt, "head")
+			n := rapid.SampledFrom([]int{3, 40, 300, 900}).Draw(rt, "len")
+			p := []byte(fmt.Sprintf("%s-conn%02d-", head, i))
+			for len(p) < n {
+				p = append(p, byte('a'+i))
+			}
+			c.Payloads = append(c.Payloads, vlib.Hex(p))
+		}
+		fp := ""
+		if len(c.Services) >= 2 {
+			fp = vlib.JSON(c)
+		}
+		tr := "mem"
+		if c.Socket {
+			tr = "socket"
+		}
+		pr := "tcp"
+		if c.UDP {
+			pr = "udp"
+		}
+		r.Case(fmt.Sprintf("concurrent/%s/%s", tr, pr), fp, func() interface{} {
+			return map[string]interface{}{"services": c.Services, "connections": k, "delay_ms": c.DelayMs, "transport": tr, "proto": pr}
+		})
+		if err := checkConcurrent(c); err != nil {
+			if strings.HasPrefix(err.Error(), "infra:") {
+				rt.Fatalf("%v", err)
+			}
+			if strings.HasPrefix(err.Error(), "inconclusive:") {
+				r.Label("inconclusive/udp-datagram-not-delivered", 1)
+				return
+			}
+			r.Fail(rt, "TestSelectConcurrent", c, "%v", err)
+		}
+	})
 }
